@@ -96,10 +96,21 @@ def RTc(t, hh, prem):
     return z3.Implies(prem, z3.And(SER(d, T) == SER(t, T), typename(d) == typename(t)))
 
 
-def RT(t, hh): return RTc(t, hh, z3.And(WF(t), NOMARK(t), INH(t, hh), COV(hh)))
-def RTL(t, hh): return z3.Implies(z3.And(WFL(t), NOMARKL(t), INHL(t, hh), COV(hh)), SERL(DESERL(SERL(t, T), hh), T) == SERL(t, T))
-def RTK(t, hh): return z3.Implies(z3.And(WFKV(t), NOMARKKV(t), INHKV(t, hh), COV(hh)), SERKV(DESERKV(SERKV(t, T), hh), T) == SERKV(t, T))
-def RTA(s, j, c): return z3.Implies(z3.And(AGREE(s, j), WFKV(s), NOMARKKV(s), TYPED(s, c)), SERKV(BUILD(KEYS(s), j, c), T) == SERKV(s, T))
+# EXCLUDE_MARKER_KEYS is set by the pack from known_findings.json (finding F6, exclusion `has_marker_key(v)`): only then
+# does the round-trip theorem carry the premise NOMARK(v).  Without the recorded finding the theorem is attempted
+# unrestricted (and its Dict case fails).
+EXCLUDE_MARKER_KEYS = False
+
+
+def _nm(t): return NOMARK(t) if EXCLUDE_MARKER_KEYS else T
+def _nml(t): return NOMARKL(t) if EXCLUDE_MARKER_KEYS else T
+def _nmk(t): return NOMARKKV(t) if EXCLUDE_MARKER_KEYS else T
+
+
+def RT(t, hh): return RTc(t, hh, z3.And(WF(t), _nm(t), INH(t, hh), COV(hh)))
+def RTL(t, hh): return z3.Implies(z3.And(WFL(t), _nml(t), INHL(t, hh), COV(hh)), SERL(DESERL(SERL(t, T), hh), T) == SERL(t, T))
+def RTK(t, hh): return z3.Implies(z3.And(WFKV(t), _nmk(t), INHKV(t, hh), COV(hh)), SERKV(DESERKV(SERKV(t, T), hh), T) == SERKV(t, T))
+def RTA(s, j, c): return z3.Implies(z3.And(AGREE(s, j), WFKV(s), _nmk(s), TYPED(s, c)), SERKV(BUILD(KEYS(s), j, c), T) == SERKV(s, T))
 
 
 def registry_facts():
@@ -158,10 +169,21 @@ def RTc(t, hh, prem):
     return z3.Implies(prem, z3.And(SER(d, T) == SER(t, T), typename(d) == typename(t)))
 
 
-def RT(t, hh): return RTc(t, hh, z3.And(WF(t), NOMARK(t), INH(t, hh), COV(hh)))
-def RTL(t, hh): return z3.Implies(z3.And(WFL(t), NOMARKL(t), INHL(t, hh), COV(hh)), SERL(DESERL(SERL(t, T), hh), T) == SERL(t, T))
-def RTK(t, hh): return z3.Implies(z3.And(WFKV(t), NOMARKKV(t), INHKV(t, hh), COV(hh)), SERKV(DESERKV(SERKV(t, T), hh), T) == SERKV(t, T))
-def RTA(s, j, c): return z3.Implies(z3.And(AGREE(s, j), WFKV(s), NOMARKKV(s), TYPED(s, c)), SERKV(BUILD(KEYS(s), j, c), T) == SERKV(s, T))
+# EXCLUDE_MARKER_KEYS is set by the pack from known_findings.json (finding F6, exclusion `has_marker_key(v)`): only then
+# does the round-trip theorem carry the premise NOMARK(v).  Without the recorded finding the theorem is attempted
+# unrestricted (and its Dict case fails).
+EXCLUDE_MARKER_KEYS = False
+
+
+def _nm(t): return NOMARK(t) if EXCLUDE_MARKER_KEYS else T
+def _nml(t): return NOMARKL(t) if EXCLUDE_MARKER_KEYS else T
+def _nmk(t): return NOMARKKV(t) if EXCLUDE_MARKER_KEYS else T
+
+
+def RT(t, hh): return RTc(t, hh, z3.And(WF(t), _nm(t), INH(t, hh), COV(hh)))
+def RTL(t, hh): return z3.Implies(z3.And(WFL(t), _nml(t), INHL(t, hh), COV(hh)), SERL(DESERL(SERL(t, T), hh), T) == SERL(t, T))
+def RTK(t, hh): return z3.Implies(z3.And(WFKV(t), _nmk(t), INHKV(t, hh), COV(hh)), SERKV(DESERKV(SERKV(t, T), hh), T) == SERKV(t, T))
+def RTA(s, j, c): return z3.Implies(z3.And(AGREE(s, j), WFKV(s), _nmk(s), TYPED(s, c)), SERKV(BUILD(KEYS(s), j, c), T) == SERKV(s, T))
 
 
 def registry_facts():
